@@ -33,7 +33,48 @@ def field_assignments(ctx, adt, field, prefix='server::'):
     return out
 
 
+_ACC_RW = None
+
+
+def accessor_rewrites():
+    """[(regex, replacement)] turning a call of a confirmed accessor (props/accessors.py: `Topic::get_partitions_count(x)`
+    returns `HashMap::len(x.partitions)`) into the expression it returns, so that a form written with the accessor and one
+    written with the field agree.  Only accessors whose confirmed form is an expression over `self` are used; the
+    accessor table itself is checked by the rules R*.acc."""
+    global _ACC_RW
+    if _ACC_RW is None:
+        import re
+        from props import accessors
+        out = []
+        for tab in accessors.ACCESSORS.values():
+            for fn, form in tab.items():
+                if fn.startswith('<') or 'self' not in form or '::' not in fn:
+                    continue
+                short = '::'.join(fn.split('::')[-2:])
+                out.append((re.compile(re.escape(short) + r'\((self|[a-z_][\w\.]*)\)'), form))
+        _ACC_RW = out
+    return _ACC_RW
+
+
+def expand_accessors(form):
+    import re
+    for rx, repl in accessor_rewrites():
+        form = rx.sub(lambda m: re.sub(r'\bself\b', m.group(1), repl), form)
+    return form
+
+
 def _match(form, expected):
+    import re
+    m0 = _match0(form, expected)
+    if m0 is not None:
+        return m0
+    ef = expand_accessors(form)
+    if ef != form:
+        return _match0(ef, expected)
+    return None
+
+
+def _match0(form, expected):
     import re
     for x in expected:
         if x.startswith('re:'):
